@@ -104,7 +104,8 @@ class DiscoverSubcircuits(UsedQubitIndicesVisitor):
         indices = defaultdict(set)
 
         count = len(self.subcircuits)
-        had_started = self.current is not None
+        # The subcircuit (if any) that is open when this block begins
+        started = self.current
 
         # XXX: using a trace restriction here is untested
         for n, stmt in self.trace_statements(block.statements):
@@ -112,7 +113,7 @@ class DiscoverSubcircuits(UsedQubitIndicesVisitor):
                 indices, self.visit(stmt, context=context), disjoint=block.parallel
             )
 
-        if had_started and (reps > 1) and (len(self.subcircuits) != count):
+        if (reps > 1) and any(sc is started for sc in self.subcircuits[count:]):
             raise JaqalError("measure_all -> prepare_all not supported in loops")
 
         return indices
